@@ -510,7 +510,27 @@ func (f *c10Fix) digestText() (string, int) {
 
 // ---- projections -----------------------------------------------------------------------------------------
 
+// Is the frame a JSON text?  encoding/json decides (json.Valid: grammar, escapes, UTF-8 is not its business), except
+// that its scanner also gives up beyond 10000 levels of nesting - the grammar has no such limit, and the server forwards
+// client data of that depth verbatim (classes nest/): a frame refused for its depth only is left to the decoder.
+func c10JsonText(data []byte) bool {
+	if json.Valid(data) {
+		return true
+	}
+	var raw json.RawMessage
+	err := json.Unmarshal(data, &raw)
+	if se, ok := err.(*json.SyntaxError); ok && strings.Contains(se.Error(), "exceeded max depth") {
+		return true
+	}
+	return false
+}
+
 func c10Reply(data []byte, rev *strings.Replacer) string {
+	// "a well-formed reply": first of all the frame is a JSON text - for every JSON reader, not only for the
+	// lenient lexer of the generated decoder (which e.g. does not look into strings of members it keeps raw)
+	if !c10JsonText(data) {
+		return "RBad"
+	}
 	var m ServerMessage
 	if err := m.UnmarshalJSON(data); err != nil {
 		return "RBad"
@@ -545,6 +565,9 @@ func c10Reply(data []byte, rev *strings.Replacer) string {
 
 func c10Bystander(data []byte, senderPub string) string {
 	var m ServerMessage
+	if !c10JsonText(data) {
+		return "BOther" // not a JSON text: nothing a bystander may legitimately receive
+	}
 	if err := m.UnmarshalJSON(data); err != nil {
 		return "BOther"
 	}
